@@ -90,6 +90,16 @@ impl<'a> World<'a> {
     }
     /// person-specific passwords; index 2 = almost another person's password (never valid), 3 = empty
     fn pw(&self, p: usize, w: u8) -> String {
+        if w >= 4 {
+            // long passwords that only differ after byte 80 (and one that is the bare common prefix)
+            let base = format!("Long-{}-{p}-", self.pre);
+            let common = format!("{base}{}", "x".repeat(80usize.saturating_sub(base.len())));
+            return match w % 3 {
+                0 => format!("{common}-tail-A"),
+                1 => format!("{common}-tail-B"),
+                _ => common,
+            };
+        }
         match w % 4 {
             0 => format!("Secret-{}-{p}-alpha", self.pre),
             1 => format!("Secret-{}-{p}-beta", self.pre),
@@ -316,7 +326,7 @@ fn c17_check(c: &UserCase, st: &mut Stats) -> CheckResult {
             }
             Step::Register { u, w: pwi, .. } => {
                 // own passwords (or the empty one) only: a person never sets a password another person uses
-                let (un, pw) = (w.uname(*u), w.pw(p, if *pwi % 4 == 2 { 0 } else { *pwi }));
+                let (un, pw) = (w.uname(*u), w.pw(p, if *pwi == 2 { 0 } else { *pwi }));
                 let r = w.cl.json(&mut w.jars[p], "POST", "/users/register", &json!({"username": un, "password": pw}))?;
                 let ok = !pw.is_empty() && !w.accounts.contains_key(&un);
                 expect_status(&r, ok, &what)?;
@@ -355,7 +365,7 @@ fn c17_check(c: &UserCase, st: &mut Stats) -> CheckResult {
                 }
             }
             Step::Update { u, w: pwi, .. } => {
-                let (un, pw) = (w.uname(*u), w.pw(p, if *pwi % 4 == 2 { 1 } else { *pwi }));
+                let (un, pw) = (w.uname(*u), w.pw(p, if *pwi == 2 { 1 } else { *pwi }));
                 let r = w.cl.json(&mut w.jars[p], "PUT", "/users/update", &json!({"username": un, "password": pw}))?;
                 let ok = match &w.session[p] {
                     None => false,
@@ -599,7 +609,7 @@ fn c17_check(c: &UserCase, st: &mut Stats) -> CheckResult {
 pub fn step_strategy() -> BoxedStrategy<Step> {
     let p = || 0u8..3;
     let u = || 0u8..3;
-    let w = || prop_oneof![5 => 0u8..2, 1 => Just(2u8), 1 => Just(3u8)];
+    let w = || prop_oneof![5 => 0u8..2, 1 => Just(2u8), 1 => Just(3u8), 2 => 4u8..7];
     let n = || 0u8..3;
     prop_oneof![
         4 => (p(), u(), w()).prop_map(|(p, u, w)| Step::Register { p, u, w }),
@@ -625,7 +635,7 @@ pub fn c17(tier: Tier) -> PropSpec {
         rule: "request histories of 5..40 steps by 2-3 persons (one cookie jar each) over register / login / logout / update(name, \
                password) / delete-account / info / add (named, unnamed, anonymous -> temporary user) / solve / get / list / \
                delete-problem, with account names and problem names from pools of 3 (collisions, renames onto freed names, \
-               re-registration) and person-specific passwords (plus foreign and empty ones), against the real server binary and the \
+               re-registration) and person-specific passwords (plus never-valid, empty and > 80-byte ones differing only in their tail), against the real server binary and the \
                MongoDB stub. A reference model (accounts with owner, password most recently set, temp flag, problems; one session \
                identity per person) predicts success/refusal and body of every response (own problems exactly, own code, 401 for \
                unauthenticated access, login succeeds iff password == most recently set and account not temporary). Model-free: a \
